@@ -1184,3 +1184,104 @@ Lemma example_history_ok :
   forallb refined_op example_history = true /\ ok_history example_history = true /\
   length (spec_run (firstn 14 example_history)) = 17%nat.
 Proof. repeat split; vm_compute; reflexivity. Qed.
+
+(* ------------------------------------------------------------------------------------------------ enumeration *)
+Lemma lb_sibs_get_some x z r : lb_sibs x r -> get z r <> None -> x < z.
+Proof. intros H Hg. destruct (Z_lt_le_dec x z); auto. exfalso. apply Hg. eapply lb_sibs_get_lt; eauto. Qed.
+Lemma find_val_head_get z t l : find_val (z :: t) l <> None -> get z l <> None.
+Proof.
+  intros H Hg. apply H. unfold find_val. destruct t; [rewrite find_one, Hg | rewrite find_cons2, Hg]; reflexivity.
+Qed.
+
+Theorem in_abs : forall l, wf l -> forall t v, In (t, v) (abs l) <-> (t <> [] /\ find_val t l = Some v).
+Proof.
+  apply (sibs_trie_ind (fun c => wf_t c -> forall t v, In (t, v) (abs_t c) <-> (t <> [] /\ find_val t (kids c) = Some v))
+                       (fun l => wf l -> forall t v, In (t, v) (abs l) <-> (t <> [] /\ find_val t l = Some v))).
+  - intros l H Hw t v. cbn [kids]. apply H. rewrite <- wf_t_node. exact Hw.
+  - intros _ t v. cbn. rewrite find_val_nil_l. split; [tauto | intros [_ H]; discriminate].
+  - intros x w c r IHc IHr Hwf t v. apply wf_cons in Hwf as (Hlb & Hc & Hr).
+    rewrite abs_cons, in_app_iff. cbn [In]. rewrite in_map_iff. split.
+    + intros [[H|H]|H].
+      * inversion H; subst. split; [congruence | apply find_val_cons_eq_one].
+      * destruct H as ([k v'] & Heq & Hin). cbn [fst snd] in Heq. inversion Heq; subst.
+        apply IHc in Hin as [Hk Hf]; auto. split; [congruence|].
+        destruct c as [c0]. destruct k as [|y k']; [congruence|]. rewrite find_val_cons_eq_deep. exact Hf.
+      * apply IHr in H as [Ht Hf]; auto. split; auto.
+        destruct t as [|z t']; [congruence|].
+        assert (x < z).
+        { apply lb_sibs_get_some with (r := r); auto. apply find_val_head_get with (t := t'). congruence. }
+        rewrite find_val_cons_gt by auto. exact Hf.
+    + intros [Ht Hf]. destruct t as [|z t']; [congruence|].
+      destruct (Z.compare_spec z x) as [E|E|E].
+      * subst z. left. destruct t' as [|y t''].
+        -- left. rewrite find_val_cons_eq_one in Hf. inversion Hf; subst; reflexivity.
+        -- right. destruct c as [c0]. rewrite find_val_cons_eq_deep in Hf.
+           exists (y :: t'', v). split; auto. apply IHc; auto. split; [congruence | exact Hf].
+      * rewrite find_val_cons_lt in Hf by auto. discriminate.
+      * rewrite find_val_cons_gt in Hf by auto. right. apply IHr; auto.
+Qed.
+
+Lemma NoDup_app_disjoint {A} (l1 l2 : list A) :
+  NoDup l1 -> NoDup l2 -> (forall a, In a l1 -> ~ In a l2) -> NoDup (l1 ++ l2).
+Proof.
+  induction l1 as [|a l1 IH]; intros H1 H2 Hd; cbn [app]; auto.
+  inversion H1; subst. constructor.
+  - rewrite in_app_iff. intros [H|H]; [contradiction | apply (Hd a); [left; auto | auto]].
+  - apply IH; auto. intros b Hb. apply Hd. right; auto.
+Qed.
+Lemma NoDup_map_cons (x : Z) (ks : list simplex) : NoDup ks -> NoDup (map (cons x) ks).
+Proof.
+  induction 1 as [|k ks Hk Hnd IH]; cbn [map]; constructor; auto.
+  rewrite in_map_iff. intros (k' & Heq & Hin). inversion Heq; subst. contradiction.
+Qed.
+
+Theorem nodup_abs : forall l, wf l -> NoDup (keys (abs l)).
+Proof.
+  apply (sibs_trie_ind (fun c => wf_t c -> NoDup (keys (abs_t c))) (fun l => wf l -> NoDup (keys (abs l)))).
+  - intros l H Hw. apply H. rewrite <- wf_t_node. exact Hw.
+  - intros _. constructor.
+  - intros x w c r IHc IHr Hwf. pose proof Hwf as Hwf0. apply wf_cons in Hwf as (Hlb & Hc & Hr).
+    rewrite abs_cons. unfold keys. rewrite map_app. cbn [map fst]. rewrite map_map. cbn [fst].
+    change (NoDup (([x] :: map (fun p : simplex * V => x :: fst p) (abs_t c)) ++ keys (abs r))).
+    assert (Hmm : map (fun p : simplex * V => x :: fst p) (abs_t c) = map (cons x) (keys (abs_t c))).
+    { unfold keys. rewrite map_map. reflexivity. }
+    rewrite Hmm. apply NoDup_app_disjoint.
+    + constructor.
+      * rewrite in_map_iff. intros (k & Heq & Hin). inversion Heq; subst.
+        unfold keys in Hin. apply in_map_iff in Hin as ([k v] & Hk & Hin). cbn in Hk; subst.
+        destruct c as [c0]. apply (in_abs c0) in Hin as [Hne _]; [congruence | rewrite <- wf_t_node; auto].
+      * apply NoDup_map_cons. apply IHc; auto.
+    + apply IHr; auto.
+    + intros t Hin1 Hin2.
+      assert (Hx : exists t', t = x :: t').
+      { destruct Hin1 as [<-|Hin1]; [eexists; reflexivity|]. apply in_map_iff in Hin1 as (k & <- & _). eexists; reflexivity. }
+      destruct Hx as (t' & ->).
+      unfold keys in Hin2. apply in_map_iff in Hin2 as ([k v] & Hk & Hin2). cbn in Hk; subst.
+      apply in_abs in Hin2 as [_ Hf]; auto.
+      assert (x < x); [|lia].
+      apply lb_sibs_get_some with (r := r); auto. apply find_val_head_get with (t := t'). congruence.
+Qed.
+
+Theorem enum_perm : forall t, Permutation (enum_t t) (abs_t t).
+Proof.
+  apply (trie_sibs_ind (fun t => Permutation (enum_t t) (abs_t t))
+                       (fun l => Permutation (enum_t (Node l)) (abs_t (Node l)))); auto.
+  intros x w c r Hc Hr.
+    change (Permutation ((map (fun p => (x :: fst p, snd p)) (enum_t c) ++ [([x], w)]) ++ enum_t (Node r))
+                        ((([x], w) :: map (fun p => (x :: fst p, snd p)) (abs_t c)) ++ abs_t (Node r))).
+    apply Permutation_app; auto.
+    eapply Permutation_trans; [apply Permutation_sym, Permutation_cons_append|].
+    constructor. apply Permutation_map. exact Hc.
+Qed.
+
+(* complex_simplex_range: every stored simplex exactly once, with its value *)
+Theorem enumeration_is_keys : forall l, wf l ->
+  NoDup (map fst (enum_t (Node l))) /\
+  forall t v, In (t, v) (enum_t (Node l)) <-> (t <> [] /\ find_val t l = Some v).
+Proof.
+  intros l Hwf. pose proof (enum_perm (Node l)) as Hp. split.
+  - eapply Permutation_NoDup; [apply Permutation_sym, Permutation_map, Hp|]. apply (nodup_abs l Hwf).
+  - intros t v. rewrite <- (in_abs l Hwf). split; intro H.
+    + eapply Permutation_in; eauto.
+    + eapply Permutation_in; [apply Permutation_sym|]; eauto.
+Qed.
